@@ -41,7 +41,11 @@ RULE = (
     'bpch1 and bpch2, scaled and unscaled; bpch2 time = tau0; time_bounds '
     '= the (tau0, tau1) pairs exactly and time within [tau0, tau1] wherever '
     'a reader presents them, also after write -> read; 1-4 blocks, '
-    'contiguous, with gaps, or instantaneous), tracerid, '
+    'contiguous, with gaps, or instantaneous, stored chronologically or in '
+    'permuted order - every reader presents file order; every write (of '
+    'the bpch1/bpch2 scaled and unscaled files and of the derived file) '
+    'leaves the source values bit-identical and a second write of the same '
+    'object gives the same bytes), tracerid, '
     'category, base unit, grid header attributes, STARTI/J/K = offsets-1; '
     'writer output byte-identical to the input file.  (b) bpch1 scaled: '
     'values = raw x table scale (float32 product, rtol 1e-6, NaN==NaN), '
@@ -247,6 +251,10 @@ def cases(draw, tier='quick'):
     for t in range(nt):
         t0 = tau + t * (dt + gap)
         times.append([t0, t0 if inst else t0 + dt])
+    # blocks need not be stored chronologically (appended reruns, merged
+    # files): the readers present file order
+    if nt >= 2 and draw(st.sampled_from([False, False, True])):
+        times = [list(t) for t in draw(st.permutations(times))]
     mode = draw(st.sampled_from(['exact', 'exact', 'bits']))
     data = []
     for t in range(nt):
@@ -664,6 +672,9 @@ def check_case(spec):
         r.label('two-blocks-one-tracer')
     if any(t0 == t1 for t0, t1 in spec['times']):
         r.label('instantaneous')
+    if any(spec['times'][i + 1][0] < spec['times'][i][0]
+           for i in range(nt - 1)):
+        r.label('blocks-out-of-order')
     if any(spec['times'][i + 1][0] != spec['times'][i][1]
            for i in range(nt - 1)):
         r.label('blocks-not-contiguous')
@@ -697,6 +708,7 @@ def check_case(spec):
     din = os.path.join(base, 'in')
     path, buf = write_inputs(spec, din)
     f0 = f1 = g0 = g1 = f2 = fm = None
+    keys = [e['key'] for e in exp]
     try:
         from PseudoNetCDF.geoschemfiles import bpch1, bpch2
         # ---------------- (a) unscaled read, byte-identical rewrite
@@ -708,14 +720,10 @@ def check_case(spec):
                                      'bpch1(noscale)', spec['mode'] == 'bits')
             check_meta(r, f0, spec, exp, 'bpch1-noscale')
             if good:
-                dout = os.path.join(base, 'out0')
-                os.makedirs(dout)
-                opath = os.path.join(dout, 'out.bpch')
-                wok, out = guard(r, 'write-noscale', lambda: quiet(
-                    f0.save, opath, format='bpch', verbose=0))
+                wok, opath = write_checked(
+                    r, f0, keys, os.path.join(base, 'out0'), 'write-noscale',
+                    'bpch1-noscale')
                 if wok:
-                    if hasattr(out, 'close'):
-                        out.close()
                     with open(opath, 'rb') as fi:
                         obuf = fi.read()
                     if obuf != buf:
@@ -752,14 +760,10 @@ def check_case(spec):
                                      'bpch2(noscale)', False)
             check_tau(r, g0, spec, 'bpch2-noscale', with_time=True)
             if good:
-                dout = os.path.join(base, 'out2')
-                os.makedirs(dout)
-                opath = os.path.join(dout, 'out.bpch')
-                wok, out = guard(r, 'bpch2-write-noscale', lambda: quiet(
-                    g0.save, opath, format='bpch', verbose=0))
+                wok, opath = write_checked(
+                    r, g0, keys, os.path.join(base, 'out2'),
+                    'bpch2-write-noscale', 'bpch2-noscale')
                 if wok:
-                    if hasattr(out, 'close'):
-                        out.close()
                     with open(opath, 'rb') as fi:
                         obuf = fi.read()
                     if obuf != buf:
@@ -773,15 +777,19 @@ def check_case(spec):
                               False)
             check_tau(r, g1, spec, 'bpch2-scaled', with_time=True)
         # ---------------- (d) write the scaled file, read it back
-        if ok1 and ok1_clean(r):
-            dout = os.path.join(base, 'out1')
-            os.makedirs(dout)
-            opath = os.path.join(dout, 'out.bpch')
-            wok, out = guard(r, 'write-scaled', lambda: quiet(
-                f1.save, opath, format='bpch', verbose=0))
+        if okg1 and not [f for f in r.failures
+                         if f.clause.startswith('bpch2-scaled')]:
+            # the scaled bpch2 file (values held as cached arrays)
+            wok, opath = write_checked(
+                r, g1, keys, os.path.join(base, 'out4'),
+                'bpch2-write-scaled', 'bpch2-scaled')
             if wok:
-                if hasattr(out, 'close'):
-                    out.close()
+                check_written(r, spec, exp, opath, tag='bpch2-written')
+        if ok1 and ok1_clean(r):
+            wok, opath = write_checked(
+                r, f1, keys, os.path.join(base, 'out1'), 'write-scaled',
+                'bpch1-scaled')
+            if wok:
                 check_written(r, spec, exp, opath)
                 ok2, f2 = guard(r, 'reread-open',
                                 lambda: quiet(bpch1, opath))
@@ -793,14 +801,10 @@ def check_case(spec):
             okd, fs = guard(r, 'derive-slice', lambda: quiet(
                 f1.sliceDimensions, time=slice(1, None)))
             if okd:
-                dout = os.path.join(base, 'out3')
-                os.makedirs(dout)
-                opath = os.path.join(dout, 'out.bpch')
-                wok, out = guard(r, 'derived-write', lambda: quiet(
-                    fs.save, opath, format='bpch', verbose=0))
+                wok, opath = write_checked(
+                    r, fs, keys, os.path.join(base, 'out3'), 'derived-write',
+                    'derived')
                 if wok:
-                    if hasattr(out, 'close'):
-                        out.close()
                     sub = dict(spec, times=spec['times'][1:],
                                data=spec['data'][len(exp):])
                     check_written(r, sub, variables_of(sub), opath,
@@ -824,6 +828,48 @@ def check_case(spec):
         gc.collect()
         shutil.rmtree(base, ignore_errors=True)
     return r
+
+
+def write_checked(r, src, keys, dout, clause, tag):
+    """write `src` as bpch into directory dout: the call must complete,
+    must leave the source's tracer values untouched (snapshot before/after,
+    bit for bit) and a second write of the same object must give the same
+    bytes.  Returns (ok, path of the first copy)."""
+    os.makedirs(dout)
+    opath = os.path.join(dout, 'out.bpch')
+    ok, before = guard(r, tag + '-snapshot', lambda: [
+        np.array(np.asarray(src.variables[k][...])) for k in keys])
+    if not ok:
+        return False, opath
+    wok, out = guard(r, clause, lambda: quiet(
+        src.save, opath, format='bpch', verbose=0))
+    if not wok:
+        return False, opath
+    if hasattr(out, 'close'):
+        out.close()
+    ok, after = guard(r, tag + '-snapshot', lambda: [
+        np.array(np.asarray(src.variables[k][...])) for k in keys])
+    if ok:
+        for k, a, b in zip(keys, before, after):
+            if a.shape != b.shape or a.tobytes() != b.tobytes():
+                r.fail(tag + '-source-changed', 'writing changed the source '
+                       'variable %s (before %s, after %s)' % (
+                           k, a.ravel()[:6], b.ravel()[:6]))
+                break
+    opath2 = os.path.join(dout, 'again.bpch')
+    wok2, out2 = guard(r, clause, lambda: quiet(
+        src.save, opath2, format='bpch', verbose=0))
+    if wok2:
+        if hasattr(out2, 'close'):
+            out2.close()
+        with open(opath, 'rb') as fi:
+            b1 = fi.read()
+        with open(opath2, 'rb') as fi:
+            b2 = fi.read()
+        if b1 != b2:
+            r.fail(tag + '-second-write', 'a second write of the same object'
+                   ' differs from the first: ' + describe_diff(b1, b2))
+    return True, opath
 
 
 def check_front(r, path, spec, exp, front):
